@@ -27,10 +27,12 @@ pub fn dispatch(kind: u32, v: &Val) -> Option<Val> {
 // forests on disk
 
 #[derive(Clone, Debug)]
-struct Tree { id: usize, dir: bool, kids: Vec<Tree> }
+struct Tree { id: usize, dir: bool, bad: bool, kids: Vec<Tree> }
 
+/// (id kind kids): kind 0 file, 1 directory, 2 (roots only) a path that does not exist
 fn dec_tree(v: &Val) -> Tree {
-    Tree { id: v.fld(0).us(), dir: v.fld(1).b(), kids: v.fld(2).list().iter().map(dec_tree).collect() }
+    let kind = v.fld(1).us();
+    Tree { id: v.fld(0).us(), dir: kind == 1, bad: kind == 2, kids: v.fld(2).list().iter().map(dec_tree).collect() }
 }
 
 fn node_name(id: usize) -> String { format!("n{}", id) }
@@ -42,6 +44,9 @@ fn node_id(p: &Path) -> Option<usize> {
 
 fn create(parent: &Path, t: &Tree) -> std::io::Result<()> {
     let p = parent.join(node_name(t.id));
+    if t.bad {
+        return Ok(());
+    }
     if t.dir {
         std::fs::create_dir_all(&p)?;
         for k in &t.kids { create(&p, k)?; }
@@ -81,11 +86,28 @@ fn materialise(base: &Path, spec: &Val, forest: &[Tree]) -> Result<(PathBuf, Vec
     Ok((dir.clone(), forest.iter().map(|t| dir.join(node_name(t.id))).collect()))
 }
 
-fn builder_for(roots: &[PathBuf], threads: usize) -> WalkBuilder {
+fn builder_for(roots: &[PathBuf], threads: usize, same_fs: bool) -> WalkBuilder {
     let mut b = WalkBuilder::new(&roots[0]);
     for r in &roots[1..] { b.add(r); }
-    b.standard_filters(false).follow_links(false).threads(threads);
+    b.standard_filters(false).follow_links(false).threads(threads).same_file_system(same_fs);
     b
+}
+
+/// the root list in model syntax: (0 tree-as-seen) for a good root, (1 id) for a bad one
+fn roots_val(dir: &Path, forest: &[Tree]) -> Val {
+    Val::L(forest.iter().map(|t| {
+        if t.bad { Val::L(vec![Val::N(1), Val::of_us(t.id)]) }
+        else { Val::L(vec![Val::N(0), as_seen(&dir.join(node_name(t.id)), t)]) }
+    }).collect())
+}
+
+fn error_path(e: &Error) -> Option<&Path> {
+    match e {
+        Error::WithPath { path, .. } => Some(path),
+        Error::WithDepth { err, .. } => error_path(err),
+        Error::WithLineNumber { err, .. } => error_path(err),
+        _ => None,
+    }
 }
 
 // ------------------------------------------------------------------------------------------------
@@ -94,6 +116,8 @@ fn builder_for(roots: &[PathBuf], threads: usize) -> WalkBuilder {
 struct Visits {
     /// (worker, id, answer) in call order; worker = usize::MAX for the visitor of `visit()` itself
     calls: Vec<(usize, usize, u8)>,
+    /// error entries of bad root paths: (id, answer)
+    root_errors: Vec<(usize, u8)>,
     errors: usize,
 }
 
@@ -114,7 +138,17 @@ impl ParallelVisitor for Visitor {
         let mut sh = self.shared.lock().unwrap_or_else(|e| e.into_inner());
         let id = match entry {
             Ok(d) => match node_id(d.path()) { Some(i) => i, None => { sh.errors += 1; return WalkState::Continue; } },
-            Err(_) => { sh.errors += 1; return WalkState::Continue; }
+            Err(e) => {
+                // the error entry of a root path that does not exist: answered like an entry, by its id
+                match error_path(&e).and_then(node_id) {
+                    Some(i) if self.worker == usize::MAX => {
+                        let a = self.resp.get(i).copied().unwrap_or(0);
+                        sh.root_errors.push((i, a));
+                        return match a { 0 => WalkState::Continue, 1 => WalkState::Skip, _ => WalkState::Quit };
+                    }
+                    _ => { sh.errors += 1; return WalkState::Continue; }
+                }
+            }
         };
         let mut a = self.resp.get(id).copied().unwrap_or(0);
         if self.quit_at == Some(sh.calls.len()) { a = 2; }
@@ -327,12 +361,12 @@ fn slot_val(s: &Slot) -> Val {
     Val::L(vec![Val::of_us(s.w), Val::N(s.kind as u128), recv, visit, snap_val(&s.snap)])
 }
 
-/// case: (base n forest resp quit_at policy seed aux max_slots)
+/// case: (base n forest resp quit_at policy seed aux max_slots same_file_system)
 ///   forest = ((id isdir (kids..)) ..) ; resp = answers by id (0 Continue 1 Skip 2 Quit) ;
 ///   quit_at = () | (k) ; policy 0: aux = ((decision worker)..) preemptions ; 1: uniform(seed) ;
 ///   2: PCT(seed), aux = (depth steps_estimate) ; 3: sticky uniform(seed), aux = (switch percent) ;
 ///   4: delay(seed), aux = (yield kind, hold percent)
-/// result: (status n forest_as_seen resp_effective slots visits decisions errors)
+/// result: (status n roots_as_seen resp_effective slots visits decisions errors root_error_visits)
 ///   status 0 finished, 1 all workers blocked but not finished, 2 slot bound overrun, 3 harness
 ///   problem, 4 walk did not return
 fn run_scheduled(v: &Val) -> Val {
@@ -345,11 +379,12 @@ fn run_scheduled(v: &Val) -> Val {
     let seed = v.fld(6).n() as u64;
     let aux = v.fld(7);
     let max_slots = v.fld(8).us().max(10);
+    let same_fs = v.fld(9).b();
     let n = if n_cfg == 0 { 2 } else { n_cfg };
     let fail = |what: &str| Val::L(vec![Val::N(3), Val::of_bytes(what.as_bytes())]);
     if forest.is_empty() { return fail("empty forest"); }
     let (dir, roots) = match materialise(&base, v.fld(2), &forest) { Ok(x) => x, Err(e) => return fail(&e) };
-    let seen = Val::L(forest.iter().map(|t| as_seen(&dir.join(node_name(t.id)), t)).collect());
+    let seen = roots_val(&dir, &forest);
 
     let mut rng = Rng(seed ^ 0x5851f42d4c957f2d);
     let policy = match policy_no {
@@ -374,7 +409,7 @@ fn run_scheduled(v: &Val) -> Val {
         }),
         cv: Condvar::new(),
     });
-    let visits = Arc::new(Mutex::new(Visits { calls: vec![], errors: 0 }));
+    let visits = Arc::new(Mutex::new(Visits { calls: vec![], root_errors: vec![], errors: 0 }));
     hook::clear_shared();
     { let s = sched.clone(); hook::set_yield(Some(Arc::new(move |w, k| s.yield_point(w, k)))); }
     { let s = sched.clone(); hook::set_received(Some(Arc::new(move |w, r| s.received(w, r)))); }
@@ -385,7 +420,7 @@ fn run_scheduled(v: &Val) -> Val {
         let resp = Arc::new(resp.clone());
         std::thread::spawn(move || {
             sched.m.lock().unwrap_or_else(|e| e.into_inner()).walk_thread = Some(std::thread::current().id());
-            let walker = builder_for(&roots, n_cfg).build_parallel();
+            let walker = builder_for(&roots, n_cfg, same_fs).build_parallel();
             let mut b = VBuilder { next: 0, resp, quit_at, shared: visits, sched: Some(sched.clone()) };
             let r = std::panic::catch_unwind(std::panic::AssertUnwindSafe(|| walker.visit(&mut b)));
             let _ = tx.send(r.is_ok());
@@ -416,6 +451,7 @@ fn run_scheduled(v: &Val) -> Val {
         if id >= resp.len() { resp.resize(id + 1, 0); }
         resp[id] = a;
     }
+    let root_errors = Val::L(vis.root_errors.iter().map(|&(i, a)| Val::L(vec![Val::of_us(i), Val::N(a as u128)])).collect());
     let slots = Val::L(inner.slots.iter().map(slot_val).collect());
     let calls = Val::L(vis.calls.iter().map(|&(w, id, a)| {
         Val::L(vec![Val::of_us(if w == usize::MAX { 999 } else { w }), Val::of_us(id), Val::N(a as u128)])
@@ -425,7 +461,7 @@ fn run_scheduled(v: &Val) -> Val {
     } else { Val::L(vec![Val::of_us(inner.decisions.len())]) };
     Val::L(vec![Val::N(status as u128), Val::of_us(n_cfg), seen,
                 Val::L(resp.iter().map(|&a| Val::N(a as u128)).collect()), slots, calls, decisions,
-                Val::of_us(vis.errors)])
+                Val::of_us(vis.errors), root_errors])
 }
 
 /// case: (base n forest resp quit_at reps) -> ((sorted visited ids, how often) ..) errors
@@ -436,6 +472,7 @@ fn run_soak(v: &Val) -> Val {
     let resp: Arc<Vec<u8>> = Arc::new(v.fld(3).list().iter().map(|x| x.n() as u8).collect());
     let quit_at = v.fld(4).opt().map(|x| x.us());
     let reps = v.fld(5).us();
+    let same_fs = v.fld(6).b();
     if forest.is_empty() { return Val::L(vec![]); }
     let (_dir, roots) = match materialise(&base, v.fld(2), &forest) { Ok(x) => x, Err(_) => return Val::L(vec![]) };
     hook::set_yield(None);
@@ -444,14 +481,14 @@ fn run_soak(v: &Val) -> Val {
     let mut errors = 0;
     let mut hung = 0;
     for _ in 0..reps {
-        let visits = Arc::new(Mutex::new(Visits { calls: vec![], errors: 0 }));
+        let visits = Arc::new(Mutex::new(Visits { calls: vec![], root_errors: vec![], errors: 0 }));
         let (tx, rx) = mpsc::channel();
         {
             let visits = visits.clone();
             let resp = resp.clone();
             let roots = roots.clone();
             std::thread::spawn(move || {
-                let walker = builder_for(&roots, n_cfg).build_parallel();
+                let walker = builder_for(&roots, n_cfg, same_fs).build_parallel();
                 let mut b = VBuilder { next: 0, resp, quit_at, shared: visits, sched: None };
                 walker.visit(&mut b);
                 let _ = tx.send(());
